@@ -174,12 +174,30 @@ func (e *Engine) generateFor(ps *PropertySpec) ([]*FuncGen, error) {
 		}
 		c := e.cs.Funcs[k]
 		fn := e.funcs[k]
+		var genErr error
 		if fn == nil {
-			return nil, fmt.Errorf("contract for %s: no such function (contract out of date)", k)
+			genErr = fmt.Errorf("contract for %s: the function no longer exists", shortKey(k))
 		}
 		g := e.NewFuncGen(fn, c)
-		if err := g.Generate(); err != nil {
-			return nil, err
+		if genErr == nil {
+			genErr = g.Generate()
+		}
+		if err := genErr; err != nil {
+			// the contract no longer fits the function (a parameter changed type, a field or
+			// a name it mentions is gone): that is a failed proof of this function, reported
+			// as one failing obligation instead of an engine error
+			g = e.NewFuncGen(fn, c)
+			g.fname = shortKey(k)
+			g.entryHeap = g.newHeap(hEntry)
+			g.alloc0 = g.heapGet(g.entryHeap, "$alloc", "Int")
+			g.ownMod = map[string]bool{}
+			g.paramTerms = map[string]Val{}
+			hc := g.declare("contract.applies", "Bool")
+			g.assert(fmt.Sprintf("(= %s false)", hc))
+			g.obls = []*Obligation{{Name: g.fname + "#contract.applies", Func: g.fname, Kind: "contract", Guard: "true", Goal: hc, Desc: "the contract can be read against the function as it is now: " + err.Error(), Gen: g}}
+			done[k] = g
+			order = append(order, k)
+			continue
 		}
 		g.applyAbstractions()
 		g.applySplits()
@@ -558,7 +576,11 @@ func cmdCheck(args []string) int {
 				replayPath = e.writeReplayFile(id, shown, *verif, nil, "no model to replay: solver answered "+shown.V.Status)
 			}
 			fmt.Printf("VIOLATION property=%s replay=%s no-failing-input-found\n", id, replayPath)
-			fmt.Printf("  obligation %s was discharged on the baseline tree and is now %s (%s) (%d instance(s) fail)\n", shown.O.Name, shown.V.Status, shown.O.Desc, len(grp.members))
+			if baseline[b] {
+				fmt.Printf("  obligation %s was discharged on the baseline tree and is now %s (%s) (%d instance(s) fail)\n", shown.O.Name, shown.V.Status, shown.O.Desc, len(grp.members))
+			} else {
+				fmt.Printf("  obligation %s is new in a function whose every obligation was discharged on the baseline tree, and is %s (%s) (%d instance(s) fail)\n", shown.O.Name, shown.V.Status, shown.O.Desc, len(grp.members))
+			}
 			violations = append(violations, b)
 			exit = 1
 		default:
